@@ -708,10 +708,15 @@ pub(crate) fn parse_strings(
                     }
                     deduped.push(value)
                 }
+                // an empty literal contributes no piece (`f"" ""` has no values at all)
                 Expr::Constant(ast::ExprConstant {
                     value: Constant::Str(value),
                     ..
-                }) => current.push(value),
+                }) => {
+                    if !value.is_empty() {
+                        current.push(value)
+                    }
+                }
                 _ => unreachable!("Unexpected non-string expression."),
             }
         }
